@@ -114,7 +114,10 @@ def gen_report(rng, small=False):
     pool = [n for n in NAME_POOL if len(n) < 100] if small else NAME_POOL
     fails = [rng.choice(pool) for _ in range(nf)]
     errs = [rng.choice(pool) for _ in range(ne)]
-    ran = rng.choice([0, 1, 7, 10, 12, 100, 3000, 12345678901234567890]) + nf + ne
+    ran = rng.choice([0, 1, 7, 10, 12, 100, 3000, 12345678901234567890])
+    if rng.random() < 0.6:
+        # (not always: failing sub-tests, layer hooks and --repeat make failures + errors exceed the tests run)
+        ran += nf + ne
     return ran, fails, errs
 
 
